@@ -145,6 +145,12 @@ func (c *DepthCase) Exec(t *eng.T) {
 		routes[1].files["/main"] = `{% import "lib" down %}` + call
 		routes[2].files["/main"] = `{% import "lib" down as dn, down %}` + fmt.Sprintf("{{ dn(%d) }}", c.K)
 	}
+	// under an alias ONLY: inside its body the macro still finds itself (and the other macros of its file) under
+	// the names they were defined with
+	routes = append(routes, struct {
+		name  string
+		files map[string]string
+	}{"aliased-only", map[string]string{"/main": `{% import "lib" down as dn %}` + fmt.Sprintf("{{ dn(%d) }}", c.K), "/lib": def("export ")}})
 	var outs []string
 	for _, rt := range routes {
 		o := px.RenderFile(rt.files, "/main", pongo2.Context{})
@@ -155,8 +161,8 @@ func (c *DepthCase) Exec(t *eng.T) {
 		outs = append(outs, o.Kind()+":"+o.S)
 	}
 	t.Outcome(outs[0])
-	if outs[1] != outs[0] || outs[2] != outs[0] {
-		t.Fail("recursion:depth-differs-by-route", "%s: local gives %s, imported %s, aliased %s - an imported macro must behave exactly like the same macro defined locally", c.ID(), head40(outs[0]), head40(outs[1]), head40(outs[2]))
+	if outs[1] != outs[0] || outs[2] != outs[0] || outs[3] != outs[0] {
+		t.Fail("recursion:depth-differs-by-route", "%s: local gives %s, imported %s, aliased %s, imported under an alias only %s - an imported macro must behave exactly like the same macro defined locally", c.ID(), head40(outs[0]), head40(outs[1]), head40(outs[2]), head40(outs[3]))
 		return
 	}
 	if c.K <= 900 && outs[0] != "ok:bottom" {
@@ -210,6 +216,11 @@ func run(r *eng.Runner) {
 					for route := 0; route < 4; route++ {
 						m := Macro{Name: "mac", Params: params, Body: macroBody(pnames[:np])}
 						files := map[string][]Node{}
+						if np > 0 {
+							// ... and inside a file the macro body includes (the page context has entries of the same names)
+							m.Body = append(m.Body, Include{File: "mpart"})
+							files["/mpart"] = []Node{T("{:"), O(v("p")), T(":}")}
+						}
 						callName := "mac"
 						var main []Node
 						switch route {
@@ -374,13 +385,14 @@ func run(r *eng.Runner) {
 	}
 
 	// ---- runaway recursion with the call inside a construct of the body ----
-	r.Group("recursion-in-constructs", "c13.rec", "all call graphs over 1..2 macros without a base case x {local file, imported file} x the recursive call written inside a loop over a two-character string, a loop over a list literal, a with block, an if branch, a filter tag: the FIRST path to reach the depth limit ends the whole execution (no exponential re-descent); each in a fresh sub-process")
+	r.Group("recursion-in-constructs", "c13.rec", "all call graphs over 1..2 macros without a base case x {local file, imported file} x the recursive call written inside a loop over a two-character string, a loop over a list literal, a with block, an if branch, a filter tag, the empty branch of a loop: the FIRST path to reach the depth limit ends the whole execution (no exponential re-descent); each in a fresh sub-process")
 	wraps := []func(call string) string{
 		func(c string) string { return `{% for ch in "ab" %}` + c + `{% endfor %}` },
 		func(c string) string { return `{% for ch in [1, 2] %}` + c + `{% endfor %}` },
 		func(c string) string { return `{% with w=1 %}` + c + c + `{% endwith %}` },
 		func(c string) string { return `{% if 1 %}` + c + `{% endif %}` + c },
 		func(c string) string { return `{% filter upper %}` + c + `{% endfilter %}` + c },
+		func(c string) string { return `{% for ch in nothing %}never{% empty %}` + c + `{% endfor %}` },
 	}
 	for n := 1; n <= 2; n++ {
 		enum.Tuples(n, n, func(callee []int) bool {
